@@ -34,13 +34,13 @@ type vfC03Stream struct {
 	deadlines int
 }
 
-func (s *vfC03Stream) StreamID() quic.StreamID             { return 4 }
-func (s *vfC03Stream) Read(p []byte) (int, error)          { return s.rd.Read(p) }
-func (s *vfC03Stream) Write(p []byte) (int, error)         { return len(p), nil }
-func (s *vfC03Stream) Close() error                        { return nil }
-func (s *vfC03Stream) SetReadDeadline(t time.Time) error   { s.deadlines++; return nil }
-func (s *vfC03Stream) SetWriteDeadline(t time.Time) error  { return nil }
-func (s *vfC03Stream) SetDeadline(t time.Time) error       { return nil }
+func (s *vfC03Stream) StreamID() quic.StreamID            { return 4 }
+func (s *vfC03Stream) Read(p []byte) (int, error)         { return s.rd.Read(p) }
+func (s *vfC03Stream) Write(p []byte) (int, error)        { return len(p), nil }
+func (s *vfC03Stream) Close() error                       { return nil }
+func (s *vfC03Stream) SetReadDeadline(t time.Time) error  { s.deadlines++; return nil }
+func (s *vfC03Stream) SetWriteDeadline(t time.Time) error { return nil }
+func (s *vfC03Stream) SetDeadline(t time.Time) error      { return nil }
 func vfC03NewStream(b []byte, mode int, end error) *vfC03Stream {
 	return &vfC03Stream{rd: vfC03Reader{data: b, mode: mode, endErr: end}}
 }
